@@ -36,7 +36,7 @@ func verifC05Env() *verifC05 {
 	verifSetupSigning(h.st, "RS256")
 	h.storage, h.full = verifPickStorage(h.st)
 	h.formClient = nd.Str("req.client_id")
-	h.cr = &verifCreds{mode: nd.Choice("cred.mode", 5), id: nd.Str("cred.id"), secret: nd.Str("cred.secret")}
+	h.cr = &verifCreds{mode: nd.Choice("cred.mode", nd.Param("credmodes", 5)), id: nd.Str("cred.id"), secret: nd.Str("cred.secret")}
 	if h.cr.mode == 4 {
 		if nd.Choice("cred.assertion.kind", 2) == 1 {
 			// an assertion really signed with clientA's registered key (arbitrary claims)
@@ -87,7 +87,7 @@ func (h *verifC05) tokenRequestParams(p *Provider) {
 			nd.Assume(h.grant != g)
 		}
 	}
-	if nd.Choice("grant.inquery", 2) == 1 {
+	if nd.Param("queryparams", 1) == 1 && nd.Choice("grant.inquery", 2) == 1 {
 		h.form.Set("?grant_type", h.grant) // grant_type in the URL query of the POST
 	} else {
 		h.form.Set("grant_type", h.grant)
